@@ -33,7 +33,7 @@ PROPS = {
                      enum("TestC06UDP6ChecksumSearch", name="TestC06UDP6ChecksumSearch(attribution)")]},
     "C02": {"jobs": [rapid("TestC02", 1500, 15000), enum("TestC02Product")]},
     "C03": {"jobs": [rapid("TestC03Protocol", 1500, 10000), rapid("TestC03Engine", 8000, 60000), rapid("TestC03OutOfRange", 3000, 20000), enum("TestC03AllPairs")]},
-    "C04": {"jobs": [rapid("TestC04", 1500, 10000)]},
+    "C04": {"jobs": [rapid("TestC04", 1500, 10000), rapid("TestC04Reuse", 800, 6000)]},
     "C05": {"jobs": [rapid("TestC05", 1500, 15000), rapid("TestC05RealTimeStall", 12, 40, shards_thorough=4)]},
     "C07": {"jobs": [rapid("TestC07", 8000, 60000), enum("TestC07Bounded")]},
     "C08": {"jobs": [rapid("TestC08Runs", 800, 5000), rapid("TestC08Engines", 3000, 20000), rapid("TestC08Services", 2000, 10000), rapid("TestC08Request", 1500, 6000), enum("TestC08SharedFetcherRealTime")]},
